@@ -830,6 +830,8 @@ def stepAll (d : DW) (line : String) : DW × String :=
     (d, out)
   | ["scribble"] => (d, "ok")    -- a third party writes into the arrays a composite handed out: the composite's own business until its next update
   | ["badseq"] => (d, "raise")   -- `Schedule.from_job_sequences` on sequences that admit no schedule: a validation error, nothing else happens
+  | ["fork"] => (d, "ok")        -- the scenario goes on with a deep copy of the dispatcher and its observers: same state, other objects
+  | ["fork", _] => (d, "ok")
   | ["stamp"] => (d, "ok")       -- the caller writes notes into `Schedule.metadata`: a dictionary of the user's, no part of the state
   | ["xform"] => (d, "ok")       -- instance transformations applied to the instance produce NEW instances: nothing changes here
   | ["disp", j, p, m] =>
@@ -881,6 +883,9 @@ partial def loop (h : IO.FS.Stream) (out : IO.FS.Stream) (d : DW) : IO Unit := d
     out.putStrLn "ok"
     loop h out emptyDW
   else
+    -- `sstep j p m`: the request reaches the dispatcher through `DispatchingRuleSolver.step` (a user rule names the operation, a user
+    -- machine chooser the machine): for the dispatcher it is the request `disp j p m`
+    let l := if l.startsWith "sstep " then "disp " ++ (l.drop 6).toString else l
     let (d', o) := stepAll d l
     out.putStrLn o
     loop h out d'
